@@ -1,4 +1,5 @@
 import RNacos.Lemmas.NsRound
+import RNacos.Lemmas.CompRound
 import RNacos.Props.C07
 import RNacos.Model.Config
 /-!
@@ -129,5 +130,116 @@ theorem namespace_addOnly_order_dependent :
     userList (setWeak (apply initial (.addOnly "ns2" (some "name34"))) "ns2" fConfig) ≠
     userList (apply (setWeak initial "ns2" fConfig) (.addOnly "ns2" (some "name34"))) :=
   addOnly_depends_on_order
+
+end RNacos.Props.C01
+
+/-! ## the sequence and table components
+
+`RNacos/Model/Components.lean` models the snapshot encoders and loaders of `SequenceDbManager` (with `id_to_bin` /
+`bin_to_id` byte by byte and the `SEQ_CONFIG` branch of `RaftDataHandler::load_snapshot`) and of `TableManager` (with
+the tree-name branches of `load_snapshot`).  Both are executed by the `apply` driver: the model predicts the answers of
+the sequence requests and the `T_SEQUENCE` / `T_USER` / `T_CACHE` records of the node that never stops. -/
+namespace RNacos.Props.C01
+open RNacos.Components RNacos.Sequence
+
+/-- **the snapshot round trip of the sequence component**: a node that starts from a snapshot holds, for every
+sequence, the next-free value of the node that wrote the snapshot - whatever the iteration order of the map -/
+theorem sequence_component_roundtrip (db : SeqDb) (hn : AL.NodupKeys db) (hok : SeqOK db) (k : String) :
+    AL.get? (seqLoad [] (seqBuild db)) k = AL.get? db k := by
+  rw [seqLoad_build_aux db hn hok [] k]
+  cases AL.get? db k <;> simp [AL.get?]
+
+/-- hence the next id it hands out is the one the stopped node would have handed out (*issued sequence counters*) -/
+theorem sequence_next_after_restart (db : SeqDb) (hn : AL.NodupKeys db) (hok : SeqOK db) (op : DbOp) :
+    ((seqLoad [] (seqBuild db)).step op).2 = (db.step op).2 := by
+  cases op <;> simp [SeqDb.step, SeqDb.next, sequence_component_roundtrip db hn hok]
+
+/-- distinct keys are an invariant of the request semantics (so `hn` above holds in every reachable state) -/
+theorem sequence_keys_distinct (db : SeqDb) (hn : AL.NodupKeys db) (op : DbOp) : AL.NodupKeys (db.step op).1 := by
+  cases op <;> simp only [SeqDb.step]
+  · exact AL.nodupKeys_set _ _ _ hn
+  · exact AL.nodupKeys_set _ _ _ hn
+  · exact AL.nodupKeys_set _ _ _ hn
+  · exact AL.nodupKeys_erase _ _ hn
+
+/-- kept visible: the snapshot loader sends the record keyed `SEQ_CONFIG` to the config actor, so a replicated
+sequence of that name would restart at 1 (no code path creates one; excluded by `SeqOK`) -/
+theorem sequence_named_seq_config_not_restored :
+    AL.get? (seqLoad [] (seqBuild [("SEQ_CONFIG", 7)])) "SEQ_CONFIG" = none := by decide
+
+/-- **the snapshot round trip of the table component**: every entry of the user and cache tables is read back,
+nothing else appears - for any number of tables' entries and any iteration order -/
+theorem table_component_roundtrip (ts : Tables) (hok : TablesOK ts) (hall : ∀ nt ∈ ts, nt.1 ∈ loadedTrees)
+    (t : String) (k : Bytes) :
+    tget (tblLoad [] (tblBuild ts)) t k = tget ts t k := by
+  rw [tblLoad_build_eq ts hall []]
+  have := look_foldl (σ := Tables) (κ := String × Bytes) (ν := Bytes)
+    (fun s tk v => tset s tk.1 tk.2 v) (fun s tk => tget s tk.1 tk.2)
+    (by
+      intro s tk v tk'
+      rw [tget_tset]
+      by_cases h : tk' = tk
+      · subst h; simp
+      · have : ¬ (tk'.1 = tk.1 ∧ tk'.2 = tk.2) := fun ⟨a, b⟩ => h (Prod.ext a b)
+        simp [h, this])
+    (flat ts) (nodupKeys_flat ts hok) [] (t, k)
+  simp only at this
+  rw [this, get?_flat ts hok.1]
+  cases tget ts t k <;> simp [tget, AL.get?]
+
+/-- distinct table names and keys are an invariant of the table requests -/
+theorem tables_ok_step (ts : Tables) (h : TablesOK ts) (r : TblReq) : TablesOK (ts.apply r) := by
+  obtain ⟨hn, ht⟩ := h
+  have hmem : ∀ (t : String) (tb : Table), AL.NodupKeys tb → TablesOK (AL.set ts t tb) := by
+    intro t tb htb
+    refine ⟨AL.nodupKeys_set _ _ _ hn, ?_⟩
+    intro nt hnt
+    simp only [AL.set, List.mem_cons] at hnt
+    rcases hnt with rfl | hnt
+    · exact htb
+    · have : nt ∈ ts := mem_of_mem_erase ts t nt hnt
+      exact ht nt this
+  have hget : ∀ (t : String) (tb : Table), AL.get? ts t = some tb → AL.NodupKeys tb :=
+    fun t tb hg => ht (t, tb) (AL.get?_some_mem ts t tb hg)
+  cases r with
+  | set t k v =>
+    apply hmem
+    apply AL.nodupKeys_set
+    cases hg : AL.get? ts t with
+    | none => simp [AL.NodupKeys]
+    | some tb => exact hget t tb hg
+  | remove t k =>
+    simp only [Tables.apply]
+    cases hg : AL.get? ts t with
+    | none => exact ⟨hn, ht⟩
+    | some tb => exact hmem _ _ (AL.nodupKeys_erase _ _ (hget t tb hg))
+  | drop t =>
+    refine ⟨AL.nodupKeys_erase _ _ hn, ?_⟩
+    intro nt hnt
+    have : nt ∈ ts := mem_of_mem_erase ts t nt hnt
+    exact ht nt this
+  | nextId t =>
+    simp only [Tables.apply]
+    cases hg : AL.get? ts t with
+    | none => exact hmem _ _ (by simp [AL.NodupKeys])
+    | some tb => exact ⟨hn, ht⟩
+  | other => exact ⟨hn, ht⟩
+
+theorem tables_ok_reachable (rs : List TblReq) : TablesOK (rs.foldl Tables.apply []) := by
+  have : ∀ (ts : Tables), TablesOK ts → TablesOK (rs.foldl Tables.apply ts) := by
+    induction rs with
+    | nil => intro ts h; exact h
+    | cons r rs ih => intro ts h; exact ih _ (tables_ok_step ts h r)
+  exact this [] ⟨by simp [AL.NodupKeys], by simp⟩
+
+/-- kept visible: `load_snapshot` knows the trees `T_USER` and `T_CACHE` only - the entries of a table of any other
+name are written into the snapshot and dropped on load (no request in the code base creates such a table) -/
+theorem other_tables_not_restored :
+    tget (tblLoad [] (tblBuild [("T_OTHER", [([1], [2])])])) "T_OTHER" [1] = none := by decide
+
+/-! non-vacuity -/
+example : AL.get? (seqLoad [] (seqBuild [("seq1", 5), ("seq0", 300)])) "seq0" = some 300 := by decide
+example : tget (tblLoad [] (tblBuild [("T_USER", [([107, 49], [118])]), ("T_CACHE", [([107, 49], [119])])])) "T_CACHE" [107, 49]
+    = some [119] := by decide
 
 end RNacos.Props.C01
